@@ -143,6 +143,10 @@ pub fn install_panic_hook() {
     }));
 }
 
+pub fn last_panic() -> String {
+    LAST_PANIC.with(|p| p.borrow().clone())
+}
+
 pub fn guarded<F: FnOnce() -> Value + std::panic::UnwindSafe>(f: F) -> Value {
     match std::panic::catch_unwind(f) {
         Ok(v) => v,
